@@ -17,7 +17,7 @@ ID = "C04"
 MECHANISM = ["tx.miter", "circuit.add_subcircuit", "sat.solve"]
 RULE = ("case = (c0, c1 or omitted, startpoints arg, endpoints arg); distinct = distinct tuple; non-trivial = the "
         "expected sat table is neither all-zero nor all-one, or the two circuits are structurally different but equivalent")
-ASSUMPTIONS = ["blackbox-free lint-clean circuits; node names avoid the miter's own names (sat, dif_*, c0_*, c1_*)",
+ASSUMPTIONS = ["blackbox-free lint-clean circuits; names that start with the miter's prefixes (c0_, c1_, dif_, sat_) are included, exact clashes with the miter's own node names are not",
                "an explicitly empty startpoints/endpoints argument means 'default' in the API, so only non-empty subsets are passed"]
 
 MUT = {"and": ["nand", "or", "nor", "xor", "xnor"], "nand": ["and", "or", "xnor"], "or": ["nor", "and", "xor"],
@@ -125,8 +125,12 @@ def check_miter(acc, d0, d1, sp_arg, ep_arg, label, solve_too=True):
     if ep_arg:
         kw["endpoints"] = set(ep_arg)
     try:
-        if label == "copy" and sp_arg is None and ep_arg is None:
-            cg.tx.miter(c0, c1)  # an earlier call on the same objects must not matter
+        if label in ("copy", "omitted"):
+            # an earlier call with the SAME argument objects (circuits, startpoint / endpoint sets) must not matter
+            cg.tx.miter(c0, c1, **kw) if c1 is not None else cg.tx.miter(c0, **kw)
+            if (sp_arg and kw["startpoints"] != set(sp_arg)) or (ep_arg and kw["endpoints"] != set(ep_arg)):
+                acc.violation("miter", "argument-set-modified", case, f"startpoints/endpoints argument changed to {kw}")
+                return None
         m = cg.tx.miter(c0, c1, **kw) if c1 is not None else cg.tx.miter(c0, **kw)
     except Exception as e:  # noqa: BLE001
         acc.violation("miter", f"miter-raises:{common.exc_name(e)}", case, repr(e))
@@ -181,6 +185,9 @@ def c0_space(tier):
         yield space.to_desc(1, gates, consts=("0", "1"), outputs="gates", name="c0")
     for gates in space.circuits(0, 2, types=("and", "xor", "not"), max_arity=2, consts=("0", "1"), min_gates=1):
         yield space.to_desc(0, gates, consts=("0", "1"), outputs="gates", name="c0")   # no primary input at all
+    for gates in space.circuits(2, 2, types=("and", "xor", "not"), max_arity=2, min_gates=2):
+        d = space.to_desc(2, gates, outputs="gates", name="c0")
+        yield space.rename(d, {"a": "c0_a", "b": "dif_b", "g0": "c1_g", "g1": "sat_o"})   # names with the miter's own prefixes
     I, G = b["feedthrough"]
     for gates in space.circuits(I, G, max_arity=2, min_gates=1):
         yield space.to_desc(I, gates, outputs="all", name="c0")
